@@ -16,7 +16,8 @@ RULE = ("2..4 controlled threads, each reporting 1..3 tests (any outcome kind, t
         "ints drawn by Hypothesis or enumerated by DFS with <= k pre-emptions; optional fault: the k-th call on the "
         "target raises. Oracle: the target log partitions into contiguous per-test blocks by one thread, each outcome "
         "exactly once, per-thread order, own start time and tags, no deadlock state, semaphore count back to 1 at the "
-        "end and never above 1, the injected exception reaches the calling thread. After the explicit schedule is used up pre-emptions continue from a congruential sequence derived from the spec (about 1 decision in 2/4/8); a scheduling point sits between a reporter's own calls; 1..3 consecutive target calls may raise; failfast may be set on the target and on the forwarders; an enumerated family restarts a forwarder with the target raising at each of its first 16 calls. "
+        "end and never above 1, an injected BaseException reaches the calling thread. After the explicit schedule is used up pre-emptions continue from a congruential sequence derived from the spec (about 1 decision in 2/4/8); a scheduling point sits between a reporter's own calls; 1..3 consecutive target calls may raise; failfast may be set on the target and on the forwarders; an enumerated family restarts a forwarder with the target raising at each of its first 16 calls. "
+        "The raising call raises an Exception, a BaseException, a TypeError or an AttributeError (the two classes the decorator between forwarder and target gives a meaning to), before or after the target did its work; the tests a raising call struck are known to the harness (it raised) and only they are exempt: every other test keeps its block, own start and end time, outcome kind, tags and payload also after a fault. Outcomes carry a payload naming the test (reason / details / exc_info, positionally or by keyword) which must arrive with that test; startTest, outcome and stopTest of one block are about one test; a reporter may go on reporting after stopTestRun without a new startTestRun; the target may carry run-level tags of its own; blocks are attributed to the reporter of their test, whichever thread made the calls; a timed acquire may time out whenever the semaphore is taken. Enumerated families: run-level calls raising in turn, every kind x payload form, reporting after stopTestRun, pre-tagged target. "
         "Non-trivial: a context switch "
         "while a block was open (semaphore held), or a fault; distinct = distinct canonical (programs, schedule).")
 ASSUMPTIONS = [
@@ -24,6 +25,20 @@ ASSUMPTIONS = [
     "two such operations only touches thread-local state",
     "'no interleaving deadlocks' is decided as: no explored schedule reaches a state where an unfinished thread "
     "exists and none is enabled",
+    "tags() is called with disjoint new/gone sets (a tag named in both is kept by _merge_tags but dropped by TagContext; "
+    "C17 states the same assumption)",
+    "what becomes of an Exception raised by the target (propagated, logged, swallowed - the decorator in between already "
+    "swallows AttributeError from run-level calls and retries after a TypeError) is not in the statement and not checked; a "
+    "BaseException (KeyboardInterrupt-like) is expected to reach the reporting thread - that clause is the check's own reading",
+    "'that test's tags' are the tags the forwarder's own current_tags shows for the test; a reporter's startTestRun empties "
+    "them (TestResult semantics, C17) also when the target's startTestRun raises - a forwarder that wipes its buffered "
+    "run-level tags only after the target accepted the call is reported (seeded change C12-r4-1)",
+    "a raising time()/tags() call is attributed to the test its calling thread is in the middle of reporting (a design in "
+    "which one thread sends another thread's block is followed in the no-fault path only)",
+    "not generated: a test reported twice or with two outcomes, start-less skips, reporters that never call time(), "
+    "addSubTest/addDuration (not forwarded: known C04 finding); not observed: whether stop()/done()/startTestRun() reach "
+    "the target, the value and the guarding of a shouldStop read, wasSuccessful() (the statement names these calls only in "
+    "its release clause)",
 ]
 
 
@@ -35,7 +50,47 @@ class Interrupt(BaseException):
     """A fault that is not an Exception (KeyboardInterrupt / SystemExit raised by the target)."""
 
 
-FAULTS = (Fault, Interrupt)
+class FaultTypeError(TypeError):
+    """A TypeError from inside the target: ExtendedToOriginalDecorator reads it as 'old signature' and retries."""
+
+
+class FaultAttributeError(AttributeError):
+    """An AttributeError from inside the target: ExtendedToOriginalDecorator reads it as 'no such method'."""
+
+
+FAULT_CLASSES = {"exc": Fault, "base": Interrupt, "type": FaultTypeError, "attr": FaultAttributeError}
+FAULTS = (Fault, Interrupt, FaultTypeError, FaultAttributeError)
+
+
+def fault_class(spec):
+    return FAULT_CLASSES[spec.get("fault_cls") or ("base" if spec.get("fault_base") else "exc")]
+
+
+class Semaphore(S.FakeSemaphore):
+    """The fake honours timeout=: a timed wait may run out whenever it finds the semaphore taken (one scheduling
+    point, then False) - the try-lock's semantics; after three misses in a row by one task the wait is long enough."""
+
+    def __init__(self, sched, value=1):
+        S.FakeSemaphore.__init__(self, sched, value)
+        self.misses = {}
+
+    def acquire(self, blocking=True, timeout=None):
+        t = S.current_task()
+        if blocking and timeout is not None and timeout >= 0 and self.misses.get(t, 0) < 3:
+            got = S.FakeSemaphore.acquire(self, False)
+            self.misses[t] = 0 if got else self.misses.get(t, 0) + 1
+            return got
+        self.misses[t] = 0
+        return S.FakeSemaphore.acquire(self, blocking)
+
+    __enter__ = acquire
+
+
+def _tid_of(x):
+    try:
+        return x.id()
+    except Exception:
+        return "<%s at %x>" % (type(x).__name__, id(x))
 
 
 @st.composite
@@ -46,10 +101,12 @@ def s_thread(draw, tid):
     ntests = draw(st.integers(1, 3))
     for k in range(ntests):
         if k and draw(st.integers(0, 4)) == 0:
-            # the same forwarder goes on to report another run
-            if draw(st.booleans()):
+            # the same forwarder goes on to report another run - or was told the run is over and reports on regardless
+            how = draw(st.integers(0, 2))
+            if how != 1:
                 ops.append({"op": "stopTestRun"})
-            ops.append({"op": "startTestRun"})
+            if how != 2:
+                ops.append({"op": "startTestRun"})
         if draw(st.integers(0, 2)) == 0:
             new = draw(H.TAGSET)
             ops.append({"op": "tags", "new": sorted(new), "gone": sorted(draw(H.TAGSET) - new)})
@@ -60,7 +117,7 @@ def s_thread(draw, tid):
             new = draw(H.TAGSET)
             ops.append({"op": "tags", "new": sorted(new), "gone": sorted(draw(H.TAGSET) - new)})
         ops.append({"op": "time", "t": draw(st.sampled_from([10 * k + 10, 10 * k + 5, t0, 100 * tid + 10 * k + 5]))})
-        ops.append({"op": "outcome", "kind": draw(H.KIND)})
+        ops.append({"op": "outcome", "kind": draw(H.KIND), "form": draw(st.integers(0, 3))})      # how the payload is passed: payload()
         if draw(st.integers(0, 3)) == 0:
             new = draw(H.TAGSET)
             ops.append({"op": "tags", "new": sorted(new), "gone": sorted(draw(H.TAGSET) - new)})
@@ -78,30 +135,92 @@ def s_case(draw):
     threads = [draw(s_thread(i)) for i in range(n)]
     fault = draw(st.one_of(st.none(), st.none(), st.integers(0, 25), st.integers(0, 60)))
     schedule = draw(st.lists(st.integers(0, 3), max_size=40))
+    pre = draw(st.sampled_from([[], [], ["t"], ["u", "w"]]))        # tags the shared target already carries (used when no thread restarts the run)
     return {"threads": threads, "fault": fault, "schedule": schedule, "fault_base": draw(st.booleans()),
+            "fault_cls": draw(st.sampled_from([None, None, None, "type", "attr"])),       # None: fault_base decides
+            "fault_after": draw(st.sampled_from([False, False, True])),      # the target records the call, then raises
+            "pre_tags": pre,
             "tail": draw(st.one_of(st.none(), st.fixed_dictionaries({"seed": st.integers(0, 1 << 20), "p": st.sampled_from([2, 4, 8])}))),       # pre-emptions after the explicit schedule is used up
             "fault_len": draw(st.sampled_from([1, 1, 1, 2, 3])),      # how many consecutive calls on the target raise
             "failfast": draw(st.sampled_from(["off", "off", "target", "forwarders", "both"])),
             "scratch_tags": draw(st.booleans())}
 
 
+def payload(content, test_id, op):
+    """What the reporter passes along with the outcome -> (args, kwargs, expectation).  The text names the test, so a
+    payload swapped between two tests, replaced by a constant or dropped is visible at the target."""
+    kind, form = op["kind"], op.get("form", 0)
+    txt = "about " + test_id
+    if kind in ("error", "failure", "xfail"):
+        if form == 0:
+            return (), {"details": {}}, None
+        if form == 1:
+            return (), {"details": {"note": content.text_content(txt)}}, ("details", "note", txt)
+        err = (ValueError, ValueError(txt), None)
+        return ((err,), {}, ("err", err)) if form == 2 else ((), {"err": err}, ("err", err))
+    if kind == "skip":
+        if form == 1:
+            return (), {"reason": txt}, ("reason", txt)
+        if form == 2:
+            return (), {"details": {"reason": content.text_content(txt)}}, ("details", "reason", txt)
+        return (txt,), {}, ("reason", txt)
+    if form % 2:
+        return (), {"details": {"note": content.text_content(txt)}}, ("details", "note", txt)
+    return (), {}, None
+
+
+def payload_ok(expect, ctx):
+    """Lenient on the channel (a result may turn a reason into a 'reason' detail or an exc_info into a traceback
+    detail), strict on the content."""
+    if expect is None:
+        return True
+    details = ctx.get("details") or {}
+    texts = [d[2] for d in details.values() if isinstance(d[2], bytes)]
+    if expect[0] == "reason":
+        return ctx.get("reason") == expect[1] or expect[1].encode() in texts
+    if expect[0] == "details":
+        got = details.get(expect[1])
+        if got is not None:
+            return got[2] == expect[2].encode()
+        return ctx.get("reason") == expect[2] or (ctx.get("err") is not None and expect[2] in str(ctx["err"][1]))
+    if expect[0] == "err":
+        err = ctx.get("err")
+        if err is not None:
+            return len(err) == 3 and err[1] is expect[1][1]
+        return any(str(expect[1][1]).encode() in t for t in texts)
+    return True
+
+
 def execute(spec, schedule=None):
     """-> (violations, stats, decisions)"""
     import testtools
+    from testtools import content
     vs = []
     sched = S.Scheduler(spec["schedule"] if schedule is None else schedule, tail=spec.get("tail") if schedule is None else None)
-    sem = S.FakeSemaphore(sched, 1)
+    sem = Semaphore(sched, 1)
     log = []                 # (tid, name, payload)
     calls = [0]
     open_switch = [0]
     target_inner = Ext()
     if spec.get("failfast") in ("target", "both"):
         target_inner.failfast = True
+    restarts = any(op["op"] == "startTestRun" for ops in spec["threads"] for op in ops)
+    # a target that carries run-level tags of its own: only a 'gone' from a reporter can take them off a test.  The
+    # target's own startTestRun would wipe them for every thread at a schedule-dependent moment, hence not with restarts
+    pre = set() if restarts else set(spec.get("pre_tags") or ())
+    if pre:
+        target_inner.tags(set(pre), set())
+        del target_inner.events[:]
+    fcls = fault_class(spec)
+    flo = spec["fault"]
+    fhi = None if flo is None else flo + spec.get("fault_len", 1)
 
     def hook(a, b):
         if sem.count == 0:
             open_switch[0] += 1
     sched.hooks.append(hook)
+    open_rep = {}            # tid -> the report of the test that thread is in the middle of
+    struck = set()           # ids of tests for which a call on the target raised (the harness knows: it raised them)
 
     class Target:
         """The shared target: every call is a yield point and is logged with the calling thread."""
@@ -119,9 +238,16 @@ def execute(spec, schedule=None):
                 n = calls[0]
                 calls[0] += 1
                 holder = sem.holder
-                log.append((t.tid if t else None, name, a, n, sem.count, holder.tid if holder else None))
-                if spec["fault"] is not None and spec["fault"] <= n < spec["fault"] + spec.get("fault_len", 1):
-                    raise (Interrupt if spec.get("fault_base") else Fault)("injected at call %d (%s)" % (n, name))
+                me = t.tid if t else None
+                log.append((me, name, a, n, sem.count, holder.tid if holder else None))
+                if flo is not None and flo <= n < fhi:
+                    if me in open_rep:
+                        struck.add(open_rep[me]["test"].id())
+                    if name in ("startTest", "stopTest") + OUTCOMES and a:
+                        struck.add(_tid_of(a[0]))
+                    if spec.get("fault_after"):
+                        attr(*a, **kw)          # the target did its work, then failed
+                    raise fcls("injected at call %d (%s)" % (n, name))
                 return attr(*a, **kw)
             return call
     target = Target()
@@ -133,6 +259,7 @@ def execute(spec, schedule=None):
         if spec.get("failfast") in ("forwarders", "both"):
             fwd.failfast = True
         tagm = H.TagModel()
+        tagm.g = set(pre)
         rep = []
         reports.append(rep)
 
@@ -146,7 +273,9 @@ def execute(spec, schedule=None):
                 sched.yield_point("reporter.between-calls")       # the reporting thread's own code (a test body) runs here
                 try:
                     if k == "startTestRun":
-                        tagm.start_run()          # the reporter has begun a new run, whatever the target makes of it
+                        # the reporter has begun a new run, whatever the target makes of it: the forwarder's own
+                        # current_tags is empty from here on also when the target's startTestRun raises (ASSUMPTIONS)
+                        tagm.start_run()
                         fwd.startTestRun()
                     elif k == "stopTestRun":
                         fwd.stopTestRun()
@@ -164,26 +293,26 @@ def execute(spec, schedule=None):
                         fwd.time(now)
                     elif k == "startTest":
                         cur = testtools.PlaceHolder("t%d.%d" % (tid, op["k"]))
+                        rep.append({"test": cur, "start": now, "tid": tid})
+                        open_rep[tid] = rep[-1]
                         fwd.startTest(cur)
                         tagm.start_test()
-                        rep.append({"test": cur, "start": now, "tid": tid})
                     elif k == "outcome":
                         rep[-1]["kind"] = op["kind"]
                         rep[-1]["tags"] = frozenset(tagm.current)
                         rep[-1]["end"] = now
                         rep[-1]["first_call"] = calls[0]
                         m = getattr(fwd, H.METHOD[op["kind"]])
+                        a, kw, rep[-1]["payload"] = payload(content, cur.id(), op)
                         try:
-                            if op["kind"] in ("error", "failure", "xfail"):
-                                m(cur, details={})
-                            elif op["kind"] == "skip":
-                                m(cur, "why")
-                            else:
-                                m(cur)
+                            m(cur, *a, **kw)
                         finally:
                             rep[-1]["last_call"] = calls[0]
                     elif k == "stopTest":
-                        fwd.stopTest(cur)
+                        try:
+                            fwd.stopTest(cur)
+                        finally:
+                            open_rep.pop(tid, None)
                         tagm.stop_test()
                     elif k == "stop":
                         fwd.stop()
@@ -193,8 +322,10 @@ def execute(spec, schedule=None):
                         fwd.shouldStop
                 except FAULTS as f:
                     faults_seen.append((tid, k))
-                    if k == "outcome":
-                        rep[-1]["faulted"] = True
+                    if k == "stopTest":
+                        tagm.stop_test()
+                    if k in ("startTest", "outcome", "stopTest") and rep:
+                        struck.add(rep[-1]["test"].id())
         return body
     for tid, ops in enumerate(spec["threads"]):
         sched.spawn(make(tid, ops), "T%d" % tid)
@@ -212,9 +343,10 @@ def execute(spec, schedule=None):
             vs.append(V("semaphore", "not-released", "semaphore count is %d after all threads finished (faults %r)" % (sem.count, faults_seen)))
         if sem.max_seen > 1:
             vs.append(V("semaphore", "over-released", "semaphore count reached %d" % sem.max_seen))
-    fault_hit = spec["fault"] is not None and spec["fault"] < calls[0]
-    if fault_hit and not faults_seen:
-        vs.append(V("fault", "swallowed", "the exception raised by the target at call %d did not reach the calling thread" % spec["fault"]))
+    fault_hit = flo is not None and flo < calls[0]
+    if fault_hit and not faults_seen and fcls is Interrupt:
+        # only for a BaseException (ASSUMPTIONS): what becomes of an Exception the target raised is not in the statement
+        vs.append(V("fault", "swallowed", "the BaseException raised by the target at call %d did not reach the calling thread" % flo))
     # ---- target calls only under the semaphore
     for tid, name, a, n, count, holder in log:
         if count != 0 or holder != tid:
@@ -244,10 +376,8 @@ def execute(spec, schedule=None):
                 break
         # a run of events by one thread up to stopTest (or until another thread's event)
         blk = seq[i:j]
-        has_fault = fault_hit and any(e[3] == spec["fault"] for e in blk) or (fault_hit and j < len(seq) and False)
         shape = [e[1] for e in blk]
-        outs = [e for e in blk if e[1] in OUTCOMES]
-        faulted_here = fault_hit and any(spec["fault"] <= e[3] < spec["fault"] + spec.get("fault_len", 1) for e in blk)
+        faulted_here = fault_hit and any(flo <= e[3] < fhi for e in blk)
         ok_shape = (len(shape) >= 5 and shape[0] == "time" and shape[1] == "startTest" and shape[2] == "time"
                     and all(s == "tags" for s in shape[3:-2]) and shape[-2] in OUTCOMES and shape[-1] == "stopTest")
         if not ok_shape and not faulted_here:
@@ -257,32 +387,35 @@ def execute(spec, schedule=None):
                         "thread %d's events %r are followed by thread %r's before the block was complete (log: %r)" % (
                             tid, shape, nxt, [(e[0], e[1]) for e in seq[max(0, i - 3):j + 3]])))
             break
+        if faulted_here:
+            # whichever thread made the calls: the tests this run of calls is about were struck
+            struck.update(_tid_of(e[2][0]) for e in blk if e[1] in ("startTest", "stopTest") + OUTCOMES and e[2])
         if ok_shape:
             test = blk[1][2][0]
             seen_tests.append((tid, test, blk))
+            if not faulted_here:
+                about = [_tid_of(e[2][0]) if e[2] else None for e in (blk[1], blk[-2], blk[-1])]
+                if len({x for x in about if x is not None}) > 1:
+                    vs.append(V("block-content", "test-identity", "one block has startTest(%s) %s(%s) stopTest(%s)" % (about[0], blk[-2][1], about[1], about[2])))
         i = j
     if not any(v.clause == "atomicity" for v in vs):
-        # exactly once / order / times / tags
+        # exactly once / order / times / tags.  A block belongs to the reporter of the test it is about (whichever
+        # thread made the calls); the tests a raising call struck may be absent, truncated or repeated
+        owner = {r["test"].id(): tid for tid, rep in enumerate(reports) for r in rep}
+        foreign = [_tid_of(t) for (tt, t, b) in seen_tests if _tid_of(t) not in owner]
+        if foreign:
+            vs.append(V("exactly-once", "duplicate-or-foreign", "the target saw blocks about %r, which nobody reported" % (foreign,)))
         for tid, rep in enumerate(reports):
-            mine = [(t, b) for (tt, t, b) in seen_tests if tt == tid]
-            want = [r for r in rep if "kind" in r and not r.get("faulted")]
-            # tests whose block was hit by the fault may be truncated: compare the others
+            mine = [(t, b) for (tt, t, b) in seen_tests if owner.get(_tid_of(t)) == tid and _tid_of(t) not in struck]
+            want = [r for r in rep if "kind" in r and r["test"].id() not in struck]
             got_ids = [t.id() for t, b in mine]
             want_ids = [r["test"].id() for r in want]
-            if fault_hit:
-                # tests whose own block was hit by the fault may be absent or truncated; every other test of the thread
-                # must still arrive, once, in order
-                if not all(g in [r["test"].id() for r in rep] for g in got_ids) or len(set(got_ids)) != len(got_ids):
-                    vs.append(V("exactly-once", "duplicate-or-foreign", "thread %d: target saw %r" % (tid, got_ids)))
-                    continue
-                faulted_ids = {r["test"].id() for r in rep if r.get("faulted")}
-                got_clean = [g for g in got_ids if g not in faulted_ids]
-                if got_clean != want_ids:
-                    vs.append(V("exactly-once", "lost-after-a-fault", "thread %d reported %r (besides the tests the fault struck: %r), target saw %r; faults delivered %r" % (
-                        tid, want_ids, sorted(faulted_ids), got_clean, faults_seen)))
-                continue
             if got_ids != want_ids:
-                vs.append(V("exactly-once", "missing-or-reordered", "thread %d reported %r, target saw %r" % (tid, want_ids, got_ids)))
+                if fault_hit:
+                    vs.append(V("exactly-once", "lost-after-a-fault", "thread %d reported %r (besides the tests the fault struck: %r), target saw %r; faults delivered %r" % (
+                        tid, want_ids, sorted(struck), got_ids, faults_seen)))
+                else:
+                    vs.append(V("exactly-once", "missing-or-reordered", "thread %d reported %r, target saw %r" % (tid, want_ids, got_ids)))
                 continue
             for r, (t, b) in zip(want, mine):
                 if b[0][2][0] != r["start"]:
@@ -291,27 +424,30 @@ def execute(spec, schedule=None):
                     vs.append(V("block-content", "end-time", "block of %s has end time %r, expected %r" % (t.id(), b[2][2][0], r["end"])))
                 if b[-2][1] != H.METHOD[r["kind"]]:
                     vs.append(V("block-content", "outcome", "%s delivered as %s" % (r["kind"], b[-2][1])))
-        # tags as observed by the target at each outcome
+        # tags and payload as observed by the target at each outcome
         outs = [e for e in target_inner.events if e[0] in OUTCOMES]
         by_id = {}
         for e in outs:
-            by_id.setdefault(e[1].id(), []).append(e[2]["tags"])
-        if not fault_hit:
-            for rep in reports:
-                for r in rep:
-                    if "kind" not in r:
-                        continue
-                    got = by_id.get(r["test"].id(), [])
-                    if len(got) != 1:
-                        vs.append(V("exactly-once", "outcome-count", "%s has %d outcomes at the target" % (r["test"].id(), len(got))))
-                    elif got[0] != r["tags"]:
-                        vs.append(V("block-content", "tags", "%s delivered with tags %r, its thread had %r" % (r["test"].id(), sorted(got[0]), sorted(r["tags"]))))
+            by_id.setdefault(_tid_of(e[1]), []).append(e[2])
+        for rep in reports:
+            for r in rep:
+                if "kind" not in r or r["test"].id() in struck:
+                    continue
+                got = by_id.get(r["test"].id(), [])
+                if len(got) != 1:
+                    vs.append(V("exactly-once", "outcome-count", "%s has %d outcomes at the target" % (r["test"].id(), len(got))))
+                    continue
+                if got[0]["tags"] != r["tags"]:
+                    vs.append(V("block-content", "tags", "%s delivered with tags %r, its thread had %r" % (r["test"].id(), sorted(got[0]["tags"]), sorted(r["tags"]))))
+                if not payload_ok(r.get("payload"), got[0]):
+                    vs.append(V("block-content", "payload", "%s was reported with %r, the target got %r" % (
+                        r["test"].id(), r["payload"][:1] + r["payload"][-1:], {k: v for k, v in got[0].items() if k in ("reason", "err", "details")})))
         # that test's tags, read off the block itself (also when a run-level call on the target raised)
         for tid, test, blk in seen_tests:
-            r = next((r for r in reports[tid] if r["test"] is test), None)
-            if r is None or "tags" not in r or r.get("faulted"):
+            r = next((r for rep in reports for r in rep if r["test"].id() == _tid_of(test)), None)
+            if r is None or "tags" not in r or r["test"].id() in struck:
                 continue
-            cur = set()
+            cur = set(pre)
             for e in blk:
                 if e[1] == "tags":
                     cur = (cur | set(e[2][0])) - set(e[2][1])
@@ -350,8 +486,8 @@ def custom_dfs(ctx):
     """Bounded-exhaustive: all schedules with <= k pre-emptions for small configurations."""
     out = []
     thorough = ctx["tier"] == "thorough"
-    configs = [(2, 1, None, 2, 1500), (2, 2, None, 1, 1500), (2, 1, 5, 1, 800)] if not thorough else [(2, 1, None, 2, 4000), (2, 2, None, 2, 6000), (3, 1, None, 2, 6000),
-                                                              (2, 1, 4, 2, 3000), (2, 1, 6, 2, 3000), (3, 2, None, 1, 4000)]
+    configs = [(2, 1, None, 2, 1500), (2, 2, None, 1, 1500), (2, 1, 5, 1, 800), (2, 3, None, 1, 1500)] if not thorough else [(2, 1, None, 2, 4000), (2, 2, None, 2, 6000), (3, 1, None, 2, 6000),
+                                                              (2, 1, 4, 2, 3000), (2, 1, 6, 2, 3000), (3, 2, None, 1, 4000), (2, 3, None, 1, 3000)]
     for nth, nt, fault, bound, max_runs in configs:
         base = small_config(nth, nt, fault)
         results = []
@@ -363,9 +499,10 @@ def custom_dfs(ctx):
             return decisions
         for _ in S.explore(run_one, bound, max_runs):
             pass
+        complete = S.explore.complete         # read now: the attribute belongs to the last exploration that ran
         for spec, vs, stats in results:
             out.append((spec, Case(vs, stats["open_switches"] > 0 or stats["fault_hit"],
-                                   ["dfs-%dx%d-fault=%s-bound=%d" % (nth, nt, fault, bound), "complete" if S.explore.complete else "truncated"], stats)))
+                                   ["dfs-%dx%d-fault=%s-bound=%d" % (nth, nt, fault, bound), "complete" if complete else "truncated"], stats)))
     return out
 
 
@@ -378,11 +515,50 @@ def _enum_restart_faults():
           {"op": "time", "t": 20}, {"op": "startTest", "k": 1}, {"op": "tags", "new": ["t"], "gone": []}, {"op": "time", "t": 30},
           {"op": "outcome", "kind": "failure"}, {"op": "stopTest"}, {"op": "stopTestRun"}]
     t1 = [{"op": "time", "t": 5}, {"op": "startTest", "k": 0}, {"op": "time", "t": 6}, {"op": "outcome", "kind": "skip"}, {"op": "stopTest"}]
-    for fault in [None] + list(range(0, 16)):
-        for base in (False, True):
-            for schedule in ([], [1, 0] * 12):
-                for flen in (1, 2):
-                    yield {"threads": [t0, t1], "fault": fault, "fault_base": base, "fault_len": flen, "schedule": schedule, "scratch_tags": False}
+    for schedule in ([], [1, 0] * 12):
+        yield {"threads": [t0, t1], "fault": None, "fault_base": False, "fault_len": 1, "schedule": schedule, "scratch_tags": False}
+        for fault in range(0, 16):
+            for cls in ("exc", "base", "type", "attr"):
+                for flen, after in ((1, False), (2, False), (1, True)):
+                    yield {"threads": [t0, t1], "fault": fault, "fault_base": cls == "base", "fault_cls": cls, "fault_len": flen,
+                           "fault_after": after, "schedule": schedule, "scratch_tags": False}
+
+
+def _test(k, kind="success", form=0, before=(), inside=(), t=None):
+    """ops of one test; before/inside: (new, gone) tag changes outside / inside the test"""
+    t = 10 * k if t is None else t
+    return ([{"op": "tags", "new": list(n), "gone": list(g)} for n, g in before] + [{"op": "time", "t": t}, {"op": "startTest", "k": k}]
+            + [{"op": "tags", "new": list(n), "gone": list(g)} for n, g in inside]
+            + [{"op": "time", "t": t + 5}, {"op": "outcome", "kind": kind, "form": form}, {"op": "stopTest"}])
+
+
+def _enum_shapes():
+    """Small fixed families for program shapes a random draw meets too rarely to be relied on at every seed."""
+    alt = [1, 0] * 12
+    # a reporter that was told the run is over and goes on reporting without a new startTestRun
+    for head in ([{"op": "startTestRun"}], []):
+        for between in (["stopTestRun"], ["stopTestRun", "done"], ["stop", "stopTestRun"]):
+            t0 = head + _test(0, before=[(["v"], [])]) + [{"op": o} for o in between] + _test(1, "failure", inside=[(["t"], [])]) + _test(2, "skip")
+            for schedule in ([], alt):
+                yield {"threads": [t0, _test(0, "skip", t=5)], "fault": None, "schedule": schedule}
+    # every call of a reporter that also makes run-level calls raises in turn, each class of exception
+    t0 = [{"op": "startTestRun"}] + _test(0, "failure", 1) + [{"op": "stop"}, {"op": "done"}, {"op": "shouldStop"}, {"op": "stopTestRun"}] + _test(1, "skip")
+    for fault in range(0, 14):
+        for cls in ("exc", "base", "type", "attr"):
+            for schedule in ([], alt):
+                yield {"threads": [t0, _test(0, "xfail", 2, t=5)], "fault": fault, "fault_cls": cls, "fault_base": cls == "base", "schedule": schedule}
+    # every way of passing the outcome's payload, two reporters whose texts differ
+    for kind in H.KINDS:
+        for form in range(4):
+            yield {"threads": [_test(0, kind, form) + _test(1, kind, (form + 1) % 4), _test(0, kind, (form + 2) % 4)], "fault": None, "schedule": alt}
+    # a shared target that carries run-level tags of its own
+    for pre in (["t"], ["u", "w"]):
+        x = pre[0]
+        t0 = _test(0, before=[([], [x])]) + _test(1, "error", inside=[([x], [])]) + _test(2)
+        t1 = _test(0, "skip") + _test(1, "xfail", inside=[([], pre)]) + _test(2, before=[(["v"], pre[-1:])])
+        for schedule in ([], alt):
+            yield {"threads": [t0, t1], "fault": None, "schedule": schedule, "pre_tags": pre}
+            yield {"threads": [t0, t1], "fault": 9, "fault_len": 2, "schedule": schedule, "pre_tags": pre}
 
 
 def subchecks(tier):
@@ -391,7 +567,11 @@ def subchecks(tier):
         Sub("random_schedules", run_case, s_case(), 2500 if q else 40000),
         Sub("restart_with_faults", run_case, enum=_enum_restart_faults, enum_complete=True,
             note="a forwarder with a buffered run-level tag starts another run; the target raises at each of its first 16 calls "
-                 "in turn (1 or 2 calls in a row, Exception or BaseException, 2 schedules)"),
+                 "in turn (1 or 2 calls in a row, before or after the target did its work; an Exception, a BaseException, a TypeError "
+                 "or an AttributeError; 2 schedules)"),
+        Sub("program_shapes", run_case, enum=_enum_shapes, enum_complete=True,
+            note="reporting goes on after stopTestRun without a new startTestRun; every outcome kind x every way of passing its "
+                 "payload; a target that already carries run-level tags"),
         Sub("bounded_preemption_dfs", run_case, custom=custom_dfs,
             note="all schedules with <= k pre-emptions (k=1 for 2 threads x 1 test in quick; k<=2 up to 3x2 in thorough)"),
     ]
